@@ -16,8 +16,24 @@ const RULE_FAULTS: [&str; 73] = [
     // unbalanced condensed rules: every part that can be out of step (inputs / outputs / contexts / exceptions), with and without the other clause
     "p, t, k > b | _a, _i", "p, t, k > b // _a, _i", "p, t, k > b / _# | _a, _i", "p, t, k > b / _a, _i | _#", "p, t, k > b / _a, _i", "p, t > b, d, g", "p, t, k > b, d", "p, t, k > b, d / _a | _i",
 ];
+/// the same fault with its plain letters respelt as letters that carry combining marks (`a` -> `ã`, `e` -> `t͡s`, `i` -> `n̩`, `b`/`d` -> `d͡z`):
+/// positions are counted in characters, so marks before, inside and after the marked span must not move or break the marker line
+fn decorate(fault: &str, which: usize) -> Option<String> {
+    let cs: Vec<char> = fault.chars().collect();
+    let mut out = String::new();
+    let mut changed = false;
+    let mut depth = 0i32;
+    for (i, c) in cs.iter().enumerate() {
+        if *c == '[' { depth += 1; } else if *c == ']' { depth -= 1; }
+        let alone = depth == 0 && !(i > 0 && (cs[i - 1].is_alphanumeric() || cs[i - 1] == '=' )) && !(i + 1 < cs.len() && cs[i + 1].is_alphanumeric());
+        let rep = match (*c, which) { ('a', 0) | ('a', 2) => Some("a\u{303}"), ('e', 1) | ('e', 2) => Some("t͡s"), ('i', 1) | ('i', 2) => Some("n̩"), ('b', 1) | ('b', 2) | ('d', 1) | ('d', 2) => Some("d͡z"), _ => None };
+        match rep { Some(r) if alone => { out.push_str(r); changed = true; } _ => out.push(*c) }
+    }
+    if changed { Some(out) } else { None }
+}
+
 const FILLER: [&str; 6] = ["ɮ > l", ";; a comment line", "", "ŋʘ > ŋǀ / _#", "   ", "q > k | _#"];
-const WORDS: [&str; 4] = ["pa.ta", "a", "ˈta", "ta51"];
+const WORDS: [&str; 6] = ["pa.ta", "a", "ˈta", "ta51", "pa\u{303}.ta\u{303}", "a\u{303}"];
 
 fn strip(s: &str) -> String { s.to_string() }
 
@@ -125,6 +141,23 @@ pub fn run() -> i32 {
             check_rule_fault(&groups, g, pl, fault, &mut a);
         } } } }
     }
+    // decorated faults: on the second base project, every position, replacing the line
+    let mut d = Acc::default();
+    let mut n_decorated = 0usize;
+    let proj = &base_projects()[1];
+    for fault in RULE_FAULTS { for which in 0..3 {
+        let Some(df) = decorate(fault, which) else { continue };
+        n_decorated += 1;
+        for g in 0..proj.len() { for l in 0..proj[g].len() {
+            let mut p: Vec<Vec<String>> = proj.iter().map(|x| x.iter().map(|s| strip(s)).collect()).collect();
+            p[g][l] = df.clone();
+            let groups: Vec<RuleGroup> = p.iter().enumerate().map(|(i, rs)| RuleGroup { name: format!("g{}", i), rule: rs.clone(), description: String::new() }).collect();
+            check_rule_fault(&groups, g, l, &df, &mut d);
+        } }
+    } }
+    r.boxes.push(json!({"box": "rule faults respelt with letters that carry combining marks (ã, t͡s, n̩, d͡z) x positions", "decorated_faults": n_decorated, "cases": d.evals, "located_at_planted_line": d.located, "fault_did_not_trigger": d.not_triggered, "distinct_error_variants": d.variants.len()}));
+    r.guard(d.located * 2 > d.evals, "more than half of the decorated faults are raised and located");
+    a.evals += d.evals; a.located += d.located; a.viols.extend(std::mem::take(&mut d.viols));
     r.boxes.push(json!({"box": "rule faults x positions", "cases": a.evals, "located_at_planted_line": a.located, "fault_did_not_trigger": a.not_triggered, "distinct_error_variants": a.variants.len(), "variants": a.variants}));
     r.guard(a.variants.len() >= 35, "at least 35 distinct rule error variants were provoked");
     r.guard(a.not_triggered * 20 < a.evals, "fewer than 5% of planted faults failed to trigger");
